@@ -16,6 +16,10 @@ type StepResult struct {
 	Sig       string
 	Detail    string
 	Obs       string // optional outcome class of the last operation
+	// Soft* report a violation that must not stop the search below this state
+	// (used for findings that are already known, so that what lies behind
+	// them is still explored with the remaining oracles).
+	SoftViolation, SoftSig, SoftDetail string
 }
 
 // BFSConfig bounds an explicit-state search over operation sequences.
@@ -157,6 +161,11 @@ func BFS(cfg BFSConfig, run func(seq []int) StepResult) *BFSReport {
 				addViol(BFSFound{Seq: r.seq, Names: name(r.seq), Result: r.r})
 				continue // do not extend a violating state
 			}
+			if r.r.SoftViolation != "" {
+				sr := r.r
+				sr.Violation, sr.Sig, sr.Detail = sr.SoftViolation, sr.SoftSig, sr.SoftDetail
+				addViol(BFSFound{Seq: r.seq, Names: name(r.seq), Result: sr})
+			}
 			if !seen[r.r.State] {
 				seen[r.r.State] = true
 				newStates++
@@ -186,4 +195,19 @@ func lessSeq(a, b []int) bool {
 		}
 	}
 	return len(a) < len(b)
+}
+
+// Guard runs f and returns its result, or a "hang" violation if f does not
+// finish within d of real time (d is chosen three orders of magnitude above
+// the normal duration of f; a hung f keeps its goroutine, which is reported,
+// not hidden).
+func Guard(d time.Duration, f func() StepResult) StepResult {
+	ch := make(chan StepResult, 1)
+	go func() { ch <- f() }()
+	select {
+	case r := <-ch:
+		return r
+	case <-time.After(d):
+		return StepResult{Violation: fmt.Sprintf("the operation sequence did not finish within %s (normal duration: tens of milliseconds): an operation hangs", d), Sig: "hang"}
+	}
 }
